@@ -31,19 +31,19 @@ def fresh_open(cfg, harness):
     return _fresh_open[k]
 
 
-def continuation(cfg, history, harness, j, latency=0.0):
+def continuation(cfg, history, harness, j, latency=0.0, silent=0):
     """Pj: refuse the next j connects, then cooperate. Returns list of (key, detail)."""
     v = []
     w, mon = explore.build(cfg, history, harness)
     c = w.cfg
     start_state = w.reported_state()
     start = 'from %s%s' % (start_state, '+attempt' if w.connecting() else '+conn' if w.readable() else '+closing' if w.disconnecting() else '')
-    sc = explore.Script(cfg, peer_hold=PEER_HOLD, refuse_first=j, connect_latency=latency)
+    sc = explore.Script(cfg, peer_hold=PEER_HOLD, refuse_first=j, connect_latency=latency, silent_first=silent)
     H = min(c['hold'], PEER_HOLD)
     if w.readable() and start_state in ('OPENCONFIRM', 'ESTABLISHED'):
         H = min(c['hold'], sc.session_peer_hold(w.readable()[-1].transport))
     slack = 1.0
-    bound = (j + 1) * (c['idle_hold'] + max(c['retry'], 30) + slack + latency)
+    bound = (j + 1) * (c['idle_hold'] + max(c['retry'], 30) + slack + latency) + silent * (c['idle_hold'] + max(c['retry'], 30) + slack)
     t0 = w.sim.now
     last_refusal = [None]
     notifs = []
@@ -146,6 +146,11 @@ CONFIGS = {
 }
 FROM_EST = {'quick': 4, 'thorough': 6}
 LONG_RUNS = ((130, 0.1), (40, 0.0))
+# a peer whose SYN-ACK takes longer than the idle-hold time (but less than ConnectRetry): timers expire while an attempt is pending
+# (cfg, refused attempts, latency, attempts that get no answer at all)
+SLOW_RUNS = (({'idle_hold': 5, 'retry': 20}, 0, 8.0, 0), ({'idle_hold': 5, 'retry': 20}, 2, 8.0, 0), ({'idle_hold': 10, 'retry': 15}, 1, 12.0, 0),
+             ({'idle_hold': 5, 'retry': 20, 'hold': 9}, 1, 19.0, 0), ({'idle_hold': 5, 'retry': 20}, 0, 8.0, 1), ({'idle_hold': 5, 'retry': 20}, 1, 8.0, 2),
+             ({'idle_hold': 30, 'retry': 30}, 0, 0.0, 1))
 DEPTH = {'quick': 6, 'thorough': 8}
 
 
@@ -169,6 +174,10 @@ def run(tier, seed):
             for k, det in continuation(cfg, (), h, j, latency=lat):
                 col.add(k, {'cfg': cfg, 'history': [], 'long_run': [j, lat]}, det)
             long_runs += 1
+    for cfg, j, lat, silent in SLOW_RUNS:
+        for k, det in continuation(cfg, (), h, j, latency=lat, silent=silent):
+            col.add(k + '|slow peer', {'cfg': cfg, 'history': [], 'long_run': [j, lat, silent]}, det)
+        long_runs += 1
     explore.close_pool()
     n_new, n_known, summary = col.finish('e1-state+continuation')
     cov = {
@@ -196,8 +205,12 @@ def replay(path):
     cfg = d['witness']['cfg']
     hist = [tuple(e) for e in d['witness']['history']]
     if d['witness'].get('long_run'):
-        j, lat = d['witness']['long_run']
-        a, b = report.twice(continuation, cfg, tuple(hist), h, j, lat)
+        lr = list(d['witness']['long_run']) + [0]
+        j, lat, silent = lr[:3]
+        a, b = report.twice(continuation, cfg, tuple(hist), h, j, lat, silent)
+        if d['key'].endswith('|slow peer'):
+            a = [(k + '|slow peer', det) for k, det in a]
+            b = [(k + '|slow peer', det) for k, det in b]
     else:
         a, b = report.twice(h.state_checks, cfg, hist, None, None)
     if repr(a) != repr(b):
